@@ -576,6 +576,12 @@ func cmdCheck(args []string) int {
 						continue
 					}
 					co := runChild(sc, tmp, j.start, j.n, "", j.events, 0)
+					if co.exit == 3 || co.exit < 0 {
+						// watchdog or killed by a signal: on a starved machine a run can stand
+						// still for the watchdog's real-time limit. A run is a function of its
+						// seed, so a genuine hang shows again; try once more before reporting.
+						co = runChild(sc, tmp, j.start, j.n, "", j.events, 0)
+					}
 					a.add(sc, co)
 				}
 			}()
